@@ -17,6 +17,7 @@ type Solver struct {
 	pc        []*Term
 	cmd     *exec.Cmd
 	in      io.WriteCloser
+	bw      *bufio.Writer // buffered solver input: flushed before every read (one write syscall per query instead of one per line)
 	out     *bufio.Reader
 	defined map[int]int // term id -> epoch defined
 	declared map[string]bool
@@ -25,6 +26,7 @@ type Solver struct {
 	nsat, nunsat, nunk int
 	elapsed time.Duration
 	log     io.Writer
+	enumSeq int
 }
 
 func NewSolver(bin string, timeoutMs int) (*Solver, error) {
@@ -35,7 +37,7 @@ func NewSolver(bin string, timeoutMs int) (*Solver, error) {
 	if err := cmd.Start(); err != nil {
 		return nil, err
 	}
-	s := &Solver{cmd: cmd, in: in, out: bufio.NewReader(out), defined: map[int]int{}, declared: map[string]bool{}}
+	s := &Solver{cmd: cmd, in: in, bw: bufio.NewWriterSize(in, 1<<16), out: bufio.NewReader(out), defined: map[int]int{}, declared: map[string]bool{}}
 	return s, nil
 }
 
@@ -43,10 +45,12 @@ func (s *Solver) send(line string) {
 	if s.log != nil {
 		fmt.Fprintln(s.log, line)
 	}
-	io.WriteString(s.in, line+"\n")
+	s.bw.WriteString(line)
+	s.bw.WriteByte('\n')
 }
 
 func (s *Solver) readLine() string {
+	s.bw.Flush()
 	l, err := s.out.ReadString('\n')
 	if err != nil {
 		panic("solver died: " + err.Error())
@@ -249,4 +253,4 @@ func (s *Solver) Values(vars []*Term) map[string]*big.Int {
 	return res
 }
 
-func (s *Solver) Close() { s.send("(exit)"); s.cmd.Wait() }
+func (s *Solver) Close() { s.send("(exit)"); s.bw.Flush(); s.cmd.Wait() }
